@@ -510,10 +510,21 @@ func scenarios(thorough bool) []scenario {
 			}
 		}
 	}
+	// two control threads against each other (writer || writer, writer || Config)
+	for _, in := range inits {
+		for _, c1 := range ctl {
+			for _, c2 := range ctl {
+				out = append(out, scenario{in, [][]opSpec{{c1}, {c2}}, -1})
+				if thorough {
+					out = append(out, scenario{in, [][]opSpec{{c1, {"config", ""}}, {c2, {"setdebug", "true"}}}, -1})
+				}
+			}
+		}
+	}
 	// three threads: request || control || control, and request || request || control
 	b3 := 3
 	if thorough {
-		b3 = -1
+		b3 = 4 // unbounded exploration of the scenarios with two request threads exceeds 3*10^6 schedules each
 	}
 	three := [][3][]opSpec{
 		{{{"request", "preflight-fail-method"}}, {{"reconfigure", "B"}}, {{"setdebug", "true"}}},
@@ -690,7 +701,7 @@ func main() {
 	}
 	c.Nontrivial.Add(int64(outcomes))
 	c.Set("scenarios", map[string]int{"two_threads_all_interleavings": twoAll, "two_threads_preemption_bounded": twoBounded, "three_threads_preemption_bounded": three})
-	c.Set("preemption_bounds", map[string]any{"two_threads_one_or_two_control_ops": "unbounded (all interleavings)", "two_threads_three_control_ops": vlib.Pick[any](c, "not explored", 3), "three_threads": vlib.Pick[any](c, 3, "unbounded (all interleavings)")})
+	c.Set("preemption_bounds", map[string]any{"two_threads_one_or_two_control_ops": "unbounded (all interleavings)", "two_threads_three_control_ops": vlib.Pick[any](c, "not explored", 3), "three_threads": vlib.Pick(c, 3, 4)})
 	c.Set("max_decisions_in_one_schedule", maxDec)
 	c.Set("determinism", "the first 50 schedules of every scenario and every failing schedule are replayed and must yield identical traces and results; a divergence while replaying a prefix is a harness error")
 	if rep, err := os.ReadFile(os.Getenv("VERIF_INSTR_REPORT")); err == nil {
